@@ -178,9 +178,14 @@ var anchorFiles = map[string][]string{
 // composite checks report server/client panics).
 var noPanicClause = map[string]bool{"C03": true, "C06": true, "C07": true, "C09": true, "C10": true}
 
-// boundedProgress: properties with a liveness clause, for which exhausting the
-// step budget is a violation rather than an unjudged run.
-var boundedProgress = map[string]bool{"C05": true, "C08": true, "C20": true, "C12": true, "C18": true, "C19": true}
+// boundedProgress: the checks for which exhausting the step budget is a
+// violation rather than an unjudged run: all whose workloads end within a few
+// hundred steps on the pinned tree (every one but C11, whose multi-megabyte
+// records read byte by byte do hit the cap). Each of these properties promises
+// that something happens - a response is sent, a request starts, an operation
+// returns, Recv terminates; a run still busy after 20000 steps has a goroutine
+// that spins or polls instead.
+var boundedProgress = map[string]bool{"C01": true, "C03": true, "C04": true, "C05": true, "C06": true, "C07": true, "C08": true, "C09": true, "C10": true, "C12": true, "C18": true, "C19": true, "C20": true}
 
 // panicFuncs: a property without a general no-panic clause can still promise
 // "exactly once" for one mechanism; a double completion there shows only as a
